@@ -95,6 +95,37 @@ def run(chk):
                 detail[tid] = {'examples': empty if not isinstance(empty, dict) else empty, 'options': {k: x for k, x in kw2.items() if k != 'size'},
                                'size': sizekw, 'first': [], 'second': r['rex']}
                 tid += 1
+    # pandas Series form (pdextract: default options, optional seed): same expressions as the list of its values
+    import pandas as pd
+    from tdda.rexpy import pdextract, extract
+    for i in range(400 if thorough else 80):
+        # pandas' own unique() truncates object strings at a NUL character (environment): no NULs in this form
+        ex = [e if e is None else e.replace('\x00', '~') for e in rx.rich_examples(rnd)]
+        seed = rnd.choice([None, rnd.randint(0, 99)])
+        strings = [e for e in ex if e is not None]
+        before = prng_fingerprint()
+        try:
+            first = extract(list(strings), seed=seed)
+            ser = pd.Series(list(ex), dtype=object)
+            if i % 3 == 0 and len(ex) > 1:
+                k = rnd.randint(1, len(ex) - 1)
+                second = pdextract([ser.iloc[:k], ser.iloc[k:]], seed=seed)
+                form = 'list of two Series'
+            elif i % 3 == 1 and strings and len(strings) == len(ex):
+                second = pdextract(ser.astype('category'), seed=seed)
+                form = 'categorical Series'
+            else:
+                second = pdextract(ser, seed=seed)
+                form = 'Series'
+            raised = 'none'
+        except Exception as exn:
+            first, second, raised, form = [], None, type(exn).__name__, 'Series'
+        after = prng_fingerprint()
+        events.append({'tid': tid, 'ev': 'Pair', 'kind': 'series', 'raised': raised, 'same': first == second,
+                       'seeded': seed is not None, 'prngsame': before == after, 'sampling': False})
+        detail[tid] = {'examples': ex, 'form': form, 'options': {'seed': seed}, 'size': None, 'first': first, 'second': second}
+        chk.count_case(('series', json.dumps(ex), seed, form), nontrivial=bool(first))
+        tid += 1
     # history: the shared regex memo (and any other module state) must not matter
     from tdda.rexpy import rexpy
     nh = 300 if thorough else 60
@@ -127,13 +158,14 @@ def run(chk):
     for e in events:
         kinds[e['kind']] = kinds.get(e['kind'], 0) + 1
     chk.coverage['pairs_by_kind'] = kinds
-    chk.coverage['rule'] = ('pairs of calls on the same multiset: permuted, reversed, frequency dictionary, an example repeated, the call '
+    chk.coverage['rule'] = ('pairs of calls on the same multiset: permuted, reversed, frequency dictionary, pandas Series (object, categorical, list of two), an example repeated, the call '
                             'repeated, after a cleared regex memo; seeded calls incl. empty inputs with the global generator state hashed '
                             'before and after; non-trivial = some expression returned')
     chk.coverage['exhaustive'] = False
     chk.assume('order independence is demanded when no random sampling takes place (number of distinct examples <= Size.do_all); '
                'with sampling only seeded repeatability and generator restoration are demanded')
     chk.assume('repeating an example must change nothing under the default pruning options')
+    chk.assume('Series inputs hold no NUL characters (pandas.Series.unique truncates object strings at NUL: environment)')
 
 
 def replay(path):
